@@ -135,9 +135,11 @@ func init() {
 				}
 				return false
 			})
+			cancelAfter := vsched.Choose(2) == 1 // the caller cancels the context it passed once it has the value (defer cancel() pattern)
 			T("H", func() {
+				callCtx, callCancel := context.WithCancel(bg)
 				label("ResolveWithReleased")
-				v, rel, err := e.rc.ResolveWithReleased(bg, func() {
+				v, rel, err := e.rc.ResolveWithReleased(callCtx, func() {
 					if vsched.CtrAdd(xRelCb, 1) > 1 {
 						fail("C10.released-cb-count", "released callback fired twice")
 					}
@@ -146,6 +148,9 @@ func init() {
 				if err != nil {
 					fail("C10.wrong-error", "ResolveWithReleased returned %v", err)
 					return
+				}
+				if cancelAfter {
+					callCancel()
 				}
 				vsched.CtrSet(xHolding, int64(v-100))
 				vsched.CtrAdd(rcHeld, 1)
